@@ -442,6 +442,16 @@ func (f *verifFile) ReadAt(b []byte, off int64) (int, error) {
 	return f.File.ReadAt(b, off)
 }
 
+func (f *verifFile) Seek(off int64, whence int) (int64, error) {
+	verifStep(false, "seek", f.File.Name())
+	return f.File.Seek(off, whence)
+}
+
+func (f *verifFile) Read(b []byte) (int, error) {
+	verifStep(false, "read", f.File.Name())
+	return f.File.Read(b)
+}
+
 func (f *verifFile) Name() string { return f.File.Name() }
 
 // ---------- panic classification (shared with the replay driver) ----------
